@@ -290,6 +290,7 @@ func c21Run(r *vkit.Run, x *c21World, wi int, q c21Req) {
 		for k, v := range feats {
 			f[k] = v
 		}
+		r.Event("violations_"+class+"_"+f["value_cmp"], 1)
 		r.Violation(class, f, c21Wit{World: wi, Setup: x.log, Request: q.String(), What: what, Detail: detail})
 	}
 	want, matches, either, excluded, clipped := c21Expected(x, q)
